@@ -106,7 +106,9 @@ def merge(results):
             if isinstance(dd, dict):
                 t = m["extra"].setdefault(g, {})
                 for a, b in dd.items():
-                    if isinstance(b, (int, float)) and not isinstance(b, bool):
+                    if g.startswith("max_"):
+                        t[a] = max(t.get(a, b), b)
+                    elif isinstance(b, (int, float)) and not isinstance(b, bool):
                         t[a] = t.get(a, 0) + b
                     else:
                         t[a] = b
@@ -124,7 +126,8 @@ def merge(results):
         hs.append(r["_hashes"])
         m["per_shard"].append({"shard": r["shard"], "evaluations": r["evaluations"], "wall_s": round(r["wall_s"], 2)})
     allh = np.concatenate(hs) if hs else np.zeros(0, dtype=np.int64)
-    m["distinct_nontrivial"] = int(np.unique(allh).size)
+    m["distinct_nontrivial"] = int(np.unique(allh).size) + sum(int(r.get("enum_distinct", 0)) for r in results
+                                                               if r.get("status") not in ("timeout", "died"))
     return m
 
 
